@@ -22,8 +22,25 @@ PROBES = [(F(1, 4), F(1, 2)), (F(1, 4), F(5, 8)), (F(0), F(1)), (F(3, 10), F(7, 
           (F(1, 2), F(3, 5)), (F(1, 2), F(1, 2))]
 
 
+def light():
+    import os
+    return os.environ.get("TSVERIF_REPLAY") == "light"
+
+
+def skipped(ctx, rule, call):
+    """Variant self-tests of edits outside torchsde/_brownian: the replay reads that package only."""
+    import os
+    if os.environ.get("TSVERIF_REPLAY") != "skip":
+        return False
+    ctx.rep.ok(rule, astq.loc(call), f"{call.key}::{rule}::not-replayed", "edit outside the Brownian package: base verdict applies")
+    ctx.floor(rule, 1)
+    return True
+
+
 def configs(tier, levy=("space-time",)):
     out = []
+    if light():
+        return [rp.Config(cache_size=F(1), levy=levy[0]), rp.Config(tol=F(1, 1000), halfway=True, levy=levy[0])]
     if tier == "quick":
         for lv in levy:
             out += [rp.Config(levy=lv), rp.Config(cache_size=F(0), levy=lv), rp.Config(dt=F(1, 8), cache_size=F(1), levy=lv),
@@ -117,7 +134,7 @@ def _cfg_r05_8(model, tier, cfg):
     use_U = cfg.levy != "none"
     res = []
     probes = PROBES if tier != "quick" else PROBES[:4] + PROBES[6:]
-    for hname, h in (HISTORIES[1:] if tier != "quick" else HISTORIES[2:]):
+    for hname, h in (HISTORIES[1:] if tier != "quick" else HISTORIES[2:] if not light() else HISTORIES[2:3] + HISTORIES[4:]):
         queries = on_grid(cfg, list(h) + list(probes) + list(reversed(h)) + list(probes))
         out, me, s = _run(model, cfg, queries, use_U)
         if isinstance(out, SimRaise):
@@ -155,9 +172,11 @@ def r05_8(ctx):
                       "cache size, dt hint and tree mode")
     call = _call_fi(model)
     rep.analysed(call)
+    if skipped(ctx, "R05.8", call):
+        return
     cfgs = configs(ctx.tier) + ([rp.Config(levy="none")] if ctx.tier == "quick" else [])
     _report(ctx, "R05.8", call, per_config(model, ctx.tier, "_cfg_r05_8", cfgs))
-    ctx.floor("R05.8", 12)
+    ctx.floor("R05.8", 4 if light() else 12)
 
 
 # ------------------------------------------------------------------------------------------------ R03.9
@@ -215,9 +234,11 @@ def r03_9(ctx):
                       "histories, in any order, for every cache size, dt hint and tree mode")
     call = _call_fi(model)
     rep.analysed(call)
+    if skipped(ctx, "R03.9", call):
+        return
     cfgs = configs(ctx.tier) + ([rp.Config(levy="none")] if ctx.tier == "quick" else [])
     _report(ctx, "R03.9", call, per_config(model, ctx.tier, "_cfg_r03_9", cfgs))
-    ctx.floor("R03.9", 40)
+    ctx.floor("R03.9", 10 if light() else 40)
 
 
 # ------------------------------------------------------------------------------------------------ R04.10
@@ -271,6 +292,8 @@ def r04_10(ctx):
                        "histories, is exactly that of Brownian motion and its time integral (reference from the definition)")
     call = _call_fi(model)
     rep.analysed(call)
+    if skipped(ctx, "R04.10", call):
+        return
     cfgs = [c for c in configs(ctx.tier) if c.levy != "none"]
     if ctx.tier == "quick":
         cfgs = [c for c in cfgs if c.dt is None]
@@ -315,7 +338,7 @@ def r04_10(ctx):
                          f"({len(bad)} of {4 * len(probes) * (len(probes) + 1) // 2} entries differ)")
             rep.check(not bad, "R04.10", astq.loc(call), f"{construct0}::covariance",
                       f"BrownianInterval({cfg.label()}), after {hname}: {shown}", "exact Brownian covariance")
-    ctx.floor("R04.10", 6)
+    ctx.floor("R04.10", 2 if light() else 6)
 
 
 # ------------------------------------------------------------------------------------------------ R06.10
@@ -329,6 +352,8 @@ def r06_10(ctx):
                        "process; in dyadic mode answers do not depend on the history; a different entropy changes them")
     call = _call_fi(model)
     rep.analysed(call)
+    if skipped(ctx, "R06.10", call):
+        return
     n = 0
     for cfg in configs(ctx.tier):
         use_U = cfg.levy != "none"
@@ -377,4 +402,4 @@ def r06_10(ctx):
                           f"BrownianInterval({cfg.label()}): the probes' values after {hname} differ from their values after the "
                           f"reference history: in dyadic mode a value may depend on the entropy and options only",
                           "identical answers")
-    ctx.floor("R06.10", 14)
+    ctx.floor("R06.10", 6 if light() else 14)
